@@ -531,7 +531,28 @@ def run_shard(spec):
     else:
         for _ in range(4 if quick else 40):
             st.run_world(rng, HEADER_CLASSES, nblocks=rng.choice([8, 14, 20]), ncand=45 if quick else 60)
+    if spec["shard"] % 4 in (1, 2):
+        miner_front_end_lane(st, rng, 2 if quick else 25, period=rng.choice([4, 5, 6]) if lane == "period" else None)
     return st.result()
+
+
+def miner_front_end_lane(st, rng, nsetups, period):
+    """'the node's own block assembly' also means the miner's front end (candidate per nonce request under a ticking
+    clock, on the current head): candidates with id below target are judged as in C12; rule codes of this property found
+    there are reported here"""
+    from skv.props import c12
+    mon = c12.Monitor()
+    for j in range(nsetups):
+        c12.run_setup(mon, rng, 5000 + j, 3, period=period)
+    env.set_retarget(ref.RETARGET_PERIOD)
+    st.c["miner_front_end_found_blocks"] = st.c.get("miner_front_end_found_blocks", 0) + mon.c.get("found_blocks", 0)
+    for v in mon.viol:
+        if v["key"].startswith("found-candidate-invalid:"):
+            codes = set(v["key"].split(":", 1)[1].split("+"))
+            if codes & HEADER_CODES:
+                st.v("miner-assembled-block-breaks-rule:" + "+".join(sorted(codes & HEADER_CODES)), v["msg"], v["witness"])
+        elif v["key"] == "found-candidate-fails-own-validation":
+            st.v("miner-assembled-block-rejected-by-own-validation", v["msg"], v["witness"])
 
 
 def finalize(m, tier):
@@ -540,7 +561,8 @@ def finalize(m, tier):
               ("boundary forks with different targets", c.get("boundary_forks_with_different_targets", 0), 5),
               ("assembled_blocks_checked", c.get("assembled_blocks_checked", 0), 40),
               ("retarget_calls", c.get("pure", {}).get("retarget_calls", 0), 10000),
-              ("future_limit_attempts", c.get("future_limit_attempts", 0), 50)]
+              ("future_limit_attempts", c.get("future_limit_attempts", 0), 50),
+              ("miner_front_end_found_blocks", c.get("miner_front_end_found_blocks", 0), 20)]
     for cls in list(HEADER_CLASSES) + list(PERIOD_ONLY):
         floors.append(("class " + cls, c.get("by_class", {}).get(cls, 0), 6))
     if tier == "thorough":
